@@ -1969,6 +1969,14 @@ func (c *twoPhaseCommitter) execute(ctx context.Context) (err error) {
 	}
 	atomic.StoreUint64(&c.commitTS, commitTS)
 
+	// check commitTS
+	if commitTS <= c.startTS {
+		err = errors.Errorf("session %d invalid transaction tso with txnStartTS=%v while txnCommitTS=%v",
+			c.sessionID, c.startTS, commitTS)
+		logutil.Logger(ctx).Error("invalid transaction", zap.Error(err))
+		return err
+	}
+
 	if c.store.GetOracle().IsExpired(c.startTS, MaxTxnTimeUse, &oracle.Option{TxnScope: oracle.GlobalTxnScope}) {
 		err = errors.Errorf("session %d txn takes too much time, txnStartTS: %d, comm: %d",
 			c.sessionID, c.startTS, c.commitTS)
